@@ -159,6 +159,16 @@ case: ifPn => [/eqP ->|N]; first by rewrite !mulr0.
 rewrite /doc_var; move: (l 0 i) N => x N; by field; rewrite N Hp.
 Qed.
 
+(* the variance of the draws along v (quadratic form; what the cells gmrf-eps-law compare to 1e-11 relative) *)
+Corollary gmrf_eps_rayleigh n m (D : 'M[R]_(m, n)) (T : 'M[R]_(n, m)) (r prec eps lam : R) (v : 'cV[R]_n) :
+  let P := D^T *m D in let Pe := P + eps%:M in let C := T *m T^T in
+  0 < eps -> 0 < prec -> 0 <= lam -> r * r = prec -> (r *: Pe) *m T = D^T ->
+  P *m v = lam *: v -> v^T *m C *m v = eps_var prec eps lam *: (v^T *m v).
+Proof.
+move=> P Pe C He Hp Hl Hr HT Hv.
+by rewrite -mulmxA (gmrf_eps_eigen_real He Hp Hl Hr HT Hv) -scalemxAr.
+Qed.
+
 (* the distance between the documented covariance and that of the draws, in the eigenbasis: zero on the null space of P,
    between 0 and doc_j * 2 eps / l_j on the range *)
 Theorem gmrf_eps_distance n m (D : 'M[R]_(m, n)) (T : 'M[R]_(n, m)) (U : 'M[R]_n) (l : 'rV[R]_n) (r prec eps : R) :
